@@ -283,6 +283,24 @@ fn generate(cli: &Cli) -> Vec<Case> {
                             }
                         }
                     }
+                    // 3b. a string field whose bytes are not UTF-8: malformed beyond doubt
+                    if matches!(pos.state, "handshake" | "login-start" | "login-session-cookie" | "login-auth-cookie" | "encrypted-client-information") {
+                        if let Some(&at) = pos.inner_len_at.first() {
+                            let len = inner.get(1 + at).copied().unwrap_or(0) as usize;
+                            if len >= 2 && len < 128 && 1 + at + 1 + len <= inner.len() {
+                                let first = 1 + at + 1;
+                                let last = first + len - 1;
+                                for (what, edits) in [("ff-first", vec![(first, 0xffu8)]), ("overlong-nul", vec![(first, 0xc0), (first + 1, 0x80)]), ("truncated-sequence-at-the-end", vec![(last, 0xe2)]), ("lone-continuation", vec![(last, 0x80)]), ("surrogate", vec![(first, 0xed), (first + 1, 0xa0)])] {
+                                    let mut m = inner.clone();
+                                    for (i, b) in edits {
+                                        m[i] = b;
+                                    }
+                                    let sc_v = apply(&sc, pos, vec![Out::Frame(reframe(&m))], false);
+                                    out.push(Case { sc: sc_v, state: state.clone(), class: "invalid-utf8-in-string", detail: what.into(), must_err: true, refuse_after: None, max_frame });
+                                }
+                            }
+                        }
+                    }
                     // 4. byte substitutions: invalid UTF-8, enum ordinals, flag bytes
                     for at in 1..inner.len().min(40) {
                         for b in [0xffu8, 0xc0, 0x80, 0x7f, 0x02] {
@@ -374,7 +392,7 @@ fn generate(cli: &Cli) -> Vec<Case> {
                             let long = "x".repeat(200);
                             let locales: Vec<&str> = vec![
                                 "", "x", "_", "__", "a_", "_b", "en_", "aé", "é", "€", "€_€", "😀", "d😀", "\u{0}", "\u{0}\u{0}_\u{0}", "en_US_POSIX", "zh_hant_tw_x_y", "EN", "eN_uS", " en", "en us", "en-US", "%s", "{}",
-                                "{locale}", "../en", &long, "\u{feff}en", "e\u{301}n_us", "ß_SS", "İ_i",
+                                "{locale}", "../en", &long, "ru_кириллица_длинная", "日本語のロケール名", "aaaaaaaaaaaaaaaé", "aaaaaaaaaaaaaaé", "\u{feff}en", "e\u{301}n_us", "ß_SS", "İ_i",
                             ];
                             for loc in locales {
                                 let mut v = apply(&sc, pos, vec![Out::Pkt(client_information(loc))], false);
